@@ -47,6 +47,11 @@ pub fn run_partition(case: &Case, check_infix: bool) -> PartResult {
     let err = sc.sub("errors.txt");
     let cfg = &case.cfg;
     let mut ex = Exec::new(cfg, Some(case.t0));
+    if cfg.mode.is_async() && case.runs.iter().any(|r| r.ops.iter().any(|o| matches!(o, Op::FailWrite(_)))) {
+        // count every hit of the point "write" from the start (see Exec::count_writes)
+        h().set_mode(crate::hooks::MODE_FAULT);
+        ex.count_writes = true;
+    }
     out.class(cfg.mode.label());
     out.class(cfg.nam().map_or("nam:none", |n| n.label()));
     for (ri, run) in case.runs.iter().enumerate() {
